@@ -960,3 +960,321 @@ Theorem eliminate_ending_sound t t' : ends_to e t t' -> rw_heq e t t'.
 Proof. apply eliminate_ending_sound_all. Qed.
 
 End Ending.
+
+(* ------------------------------------------------------------------------------------------ *)
+(* 6. R3 — the bump-along marker is Empty for the reference semantics                            *)
+(* ------------------------------------------------------------------------------------------ *)
+
+Section Bump.
+Variable e : env.
+
+Theorem bump_is_noop : rw_eqs e NBump NEmpty.
+Proof. intros [|f] s; reflexivity. Qed.
+
+Lemma bindl_ext {A B} (l : list A) (f g : A -> res (list B)) :
+  (forall a, f a = g a) -> bindl l f = bindl l g.
+Proof. intros H. induction l as [|a l IH]; simpl; [reflexivity|]. rewrite H, IH. reflexivity. Qed.
+
+Lemma bindr_ext {A B} (r : res (list A)) (f g : A -> res (list B)) :
+  (forall a, f a = g a) -> bindr r f = bindr r g.
+Proof. intros H. destruct r; simpl; try reflexivity. apply bindl_ext, H. Qed.
+
+Lemma bindl_single {A B} (a : A) (k : A -> res (list B)) : bindl [a] k = k a.
+Proof. simpl. destruct (k a); simpl; [rewrite app_nil_r|..]; reflexivity. Qed.
+
+Lemma seq_sem_bump rec l1 l2 s :
+  (forall s, rec NBump s = Ok [s]) -> seq_sem rec (l1 ++ NBump :: l2) s = seq_sem rec (l1 ++ l2) s.
+Proof.
+  intros Hb. revert s. induction l1 as [|x l1 IH]; intros s; cbn [app seq_sem].
+  - rewrite Hb. unfold bindr. cbn [bind]. apply bindl_single.
+  - apply bindr_ext. exact IH.
+Qed.
+
+(* as the code inserts it (index 1 of the leading concatenation: after the loop, tree.go:355-357):
+   same result with the same fuel *)
+Theorem bump_insert_eqs o x l1 l2 :
+  rw_eqs e (NConcat o (x :: l1 ++ l2)) (NConcat o (x :: l1 ++ NBump :: l2)).
+Proof.
+  intros [|[|f]] s; try reflexivity. rewrite !sem_S. cbn [sem_step].
+  symmetry. apply (seq_sem_bump _ (x :: l1)). intros s'. reflexivity.
+Qed.
+
+(* anywhere in any concatenation *)
+Theorem bump_insert_eq o l1 l2 : rw_eq e (NConcat o (l1 ++ l2)) (NConcat o (l1 ++ NBump :: l2)).
+Proof.
+  split; intros s z [[|f] H]; try discriminate; rewrite sem_S in H; cbn [sem_step] in H.
+  - exists (S (S f)). rewrite sem_S. cbn [sem_step]. rewrite seq_sem_bump by (intros; reflexivity).
+    eapply rle_seq_sem; [|exact H]. intros; apply rw_sem_mono_S.
+  - destruct f as [|f].
+    + destruct l1; cbn in H; discriminate.
+    + exists (S (S f)). rewrite sem_S. cbn [sem_step]. rewrite seq_sem_bump in H by (intros; reflexivity). exact H.
+Qed.
+
+End Bump.
+
+(* ------------------------------------------------------------------------------------------ *)
+(* 7. R4 — a greedy loop followed by something that cannot start where the loop gave back        *)
+(*    (findAndMakeLoopsAtomic / canBeMadeAtomic, tree.go:375-470, 872-1027)                      *)
+(* ------------------------------------------------------------------------------------------ *)
+
+Section AutoAtomic.
+Variable e : env.
+Notation evals := (rw_evals e).
+
+Lemma sem_charloop_unfold k l o c m n s :
+  sem_charloop e k l o c m n s =
+  let r := loop_run e k o c n s in
+  if r <? m then [] else
+  match l with
+  | LGreedy => map (loop_state o s) (count_down r m)
+  | LLazy => map (loop_state o s) (count_up m r)
+  | LAtomic => [loop_state o s r]
+  end.
+Proof. reflexivity. Qed.
+
+Lemma count_down_aux_in n a j : In j (count_down_aux n a) <-> a - Z.of_nat n < j <= a.
+Proof.
+  revert a. induction n as [|n IH]; intros a; cbn [count_down_aux In].
+  - lia.
+  - rewrite IH. lia.
+Qed.
+
+Lemma count_down_in a b j : In j (count_down a b) <-> b <= j <= a.
+Proof.
+  unfold count_down. destruct (a <? b) eqn:E.
+  - simpl. lia.
+  - rewrite count_down_aux_in. lia.
+Qed.
+
+Lemma count_down_cons r m : m <= r -> count_down r m = r :: count_down (r - 1) m.
+Proof.
+  intros H. unfold count_down. assert (r <? m = false) as -> by lia.
+  replace (Z.to_nat (r - m + 1)) with (S (Z.to_nat (r - 1 - m + 1))) by lia. cbn [count_down_aux].
+  destruct (r - 1 <? m) eqn:E; [|reflexivity].
+  replace (Z.to_nat (r - 1 - m + 1)) with 0%nat by lia. reflexivity.
+Qed.
+
+Lemma bindl_all_nil {A B} (l : list A) (k : A -> res (list B)) :
+  (forall a, In a l -> k a = Ok []) -> bindl l k = Ok [].
+Proof.
+  induction l as [|a l IH]; intros H; simpl; [reflexivity|].
+  rewrite (H a) by (left; reflexivity). simpl. rewrite IH by (intros; apply H; right; assumption). reflexivity.
+Qed.
+
+(* R4, same-fuel form: the successor [x] fails outright (whatever the fuel) at every state where the
+   loop stopped early *)
+Theorem auto_atomic_charloop_strong k o o1 c m n x rest :
+  (forall f s j, m <= j < loop_run e k o1 c n s -> sem e (S f) x (loop_state o1 s j) = Ok []) ->
+  rw_eqs e (NConcat o (NCharLoop k LGreedy o1 c m n :: x :: rest))
+           (NConcat o (NCharLoop k LAtomic o1 c m n :: x :: rest)).
+Proof.
+  intros Hx [|[|f]] s; try reflexivity. rewrite !sem_S. cbn [sem_step seq_sem].
+  rewrite !sem_S. cbn [sem_step]. rewrite !sem_charloop_unfold. cbv zeta.
+  set (r := loop_run e k o1 c n s). destruct (r <? m) eqn:E; [reflexivity|].
+  rewrite (count_down_cons r m) by lia. cbn [map]. unfold bindr at 1 3. cbn [bind bindl].
+  set (K := fun s0 => bindr (sem e (S f) x s0) (seq_sem (sem e (S f)) rest)).
+  rewrite (bindl_all_nil (map (loop_state o1 s) (count_down (r - 1) m)) K); [reflexivity|].
+  intros a Ha. apply in_map_iff in Ha as (j & <- & Hj). apply count_down_in in Hj.
+  unfold K. rewrite Hx by (fold r; lia). reflexivity.
+Qed.
+
+Lemma seq_fails_evals o rest s : rw_seq_fails e rest s <-> evals (NConcat o rest) s [].
+Proof.
+  split.
+  - intros [f H]. exists (S f). rewrite sem_S. exact H.
+  - intros [[|f] H]; [discriminate|]. exists f. rewrite sem_S in H. exact H.
+Qed.
+
+Lemma concat_all_nil {A} (zs : list (list A)) : Forall (fun z => z = []) zs -> concat zs = [].
+Proof. induction 1; simpl; [reflexivity|]. subst. assumption. Qed.
+
+Lemma evals_charloop k l o c m n s lx :
+  evals (NCharLoop k l o c m n) s lx <-> lx = sem_charloop e k l o c m n s.
+Proof. apply evals_leaf. reflexivity. Qed.
+
+(* R4, general form: the whole continuation [rest] evaluates to "no result" at every state where the
+   loop stopped early *)
+Theorem auto_atomic_charloop k o o1 c m n rest :
+  (forall s j, m <= j < loop_run e k o1 c n s -> rw_seq_fails e rest (loop_state o1 s j)) ->
+  rw_eq e (NConcat o (NCharLoop k LGreedy o1 c m n :: rest))
+          (NConcat o (NCharLoop k LAtomic o1 c m n :: rest)).
+Proof.
+  intros Hfail.
+  assert (Hearly : forall s a, In a (map (loop_state o1 s) (count_down (loop_run e k o1 c n s - 1) m)) ->
+                               evals (NConcat o rest) a []).
+  { intros s a Ha. apply in_map_iff in Ha as (j & <- & Hj). apply count_down_in in Hj.
+    apply seq_fails_evals, Hfail. lia. }
+  split; intros s z Hz; apply evals_concat_cons in Hz as (lx & zs & Hx & HF & ->);
+    apply evals_concat_cons.
+  - apply (proj1 (evals_charloop _ _ _ _ _ _ _ _)) in Hx. subst lx. rewrite sem_charloop_unfold in HF. cbv zeta in HF.
+    exists (sem_charloop e k LAtomic o1 c m n s). rewrite sem_charloop_unfold. cbv zeta.
+    destruct (loop_run e k o1 c n s <? m) eqn:E.
+    + inversion HF; subst. exists []. split; [apply (proj2 (evals_charloop _ _ _ _ _ _ _ _)); rewrite sem_charloop_unfold; cbv zeta; rewrite E; reflexivity|].
+      split; [constructor | reflexivity].
+    + rewrite (count_down_cons _ m) in HF by lia. cbn [map] in HF. inversion HF as [|a0 z0 l0 zs0 H0 HF0]; subst.
+      exists [z0]. split; [apply (proj2 (evals_charloop _ _ _ _ _ _ _ _)); rewrite sem_charloop_unfold; cbv zeta; rewrite E; reflexivity|].
+      split; [constructor; [exact H0 | constructor]|]. cbn [concat]. f_equal.
+      apply concat_all_nil. clear H0 HF.
+      assert (Hall : forall a, In a (map (loop_state o1 s) (count_down (loop_run e k o1 c n s - 1) m)) ->
+                               evals (NConcat o rest) a []) by (apply Hearly).
+      revert Hall HF0. generalize (map (loop_state o1 s) (count_down (loop_run e k o1 c n s - 1) m)).
+      intros l Hall HF0. induction HF0 as [|a za l zs Ha _ IH]; constructor.
+      * eapply rw_evals_det; [exact Ha | apply Hall; left; reflexivity].
+      * apply IH. intros; apply Hall; right; assumption.
+  - apply (proj1 (evals_charloop _ _ _ _ _ _ _ _)) in Hx. subst lx. rewrite sem_charloop_unfold in HF. cbv zeta in HF.
+    exists (sem_charloop e k LGreedy o1 c m n s). rewrite sem_charloop_unfold. cbv zeta.
+    destruct (loop_run e k o1 c n s <? m) eqn:E.
+    + inversion HF; subst. exists []. split; [apply (proj2 (evals_charloop _ _ _ _ _ _ _ _)); rewrite sem_charloop_unfold; cbv zeta; rewrite E; reflexivity|].
+      split; [constructor | reflexivity].
+    + inversion HF as [|a0 z0 l0 zs0 H0 HF0]; subst. inversion HF0; subst.
+      rewrite (count_down_cons _ m) by lia. cbn [map].
+      set (early := map (loop_state o1 s) (count_down (loop_run e k o1 c n s - 1) m)).
+      exists (z0 :: map (fun _ => []) early).
+      split; [apply (proj2 (evals_charloop _ _ _ _ _ _ _ _)); rewrite sem_charloop_unfold; cbv zeta; rewrite E, (count_down_cons _ m) by lia; reflexivity|].
+      split.
+      * constructor; [exact H0|]. specialize (Hearly s). fold early in Hearly. clearbody early.
+        induction early as [|a l IH]; constructor; [apply Hearly; left; reflexivity | apply IH; intros; apply Hearly; right; assumption].
+      * cbn [concat]. f_equal. symmetry. apply concat_all_nil. clear. induction early; constructor; auto.
+Qed.
+
+(* ---- what is true of every state at which the loop stopped early ---- *)
+
+Lemma run_len_char k c o n p j : 0 <= j < run_len e k c o n p ->
+  (0 <? avail e o (p + dir o * j)) && char_test e k c (next_char e o (p + dir o * j)) = true.
+Proof.
+  revert p j. induction n as [|n IH]; intros p j Hj; cbn [run_len] in Hj; [lia|].
+  destruct ((0 <? avail e o p) && char_test e k c (next_char e o p)) eqn:E; [|lia].
+  destruct (Z.eq_dec j 0) as [->|Hne].
+  - replace (p + dir o * 0) with p by lia. exact E.
+  - specialize (IH (p + dir o) (j - 1) ltac:(lia)).
+    replace (p + dir o + dir o * (j - 1)) with (p + dir o * j) in IH by lia. exact IH.
+Qed.
+
+Lemma early_next_in k o c m n s j : 0 <= m -> m <= j < loop_run e k o c n s ->
+  next_in e k o c (loop_state o s j).
+Proof.
+  intros Hm [Hj1 Hj2]. unfold loop_run in Hj2. cbv zeta in Hj2.
+  pose proof (run_len_char k c o _ (pos s) j (conj (Z.le_trans _ _ _ Hm Hj1) Hj2)) as H. apply andb_true_iff in H.
+  unfold next_in, loop_state. cbn [pos with_pos]. exact H.
+Qed.
+
+(* ---- syntactic sufficient conditions (the cases of canBeMadeAtomic), each as "x fails, whatever the
+   fuel, at every state whose next character passes the loop's test" ---- *)
+
+Definition tests_disjoint (k : ckind) (c : Z) (k' : ckind) (c' : Z) : Prop :=
+  forall ch, char_test e k c ch = true -> char_test e k' c' ch = false.
+
+Lemma avail_same_dir o o' p : is_rtl o' = is_rtl o -> avail e o' p = avail e o p.
+Proof. unfold avail. intros ->. reflexivity. Qed.
+Lemma next_char_same_dir o o' p : is_rtl o' = is_rtl o -> next_char e o' p = next_char e o p.
+Proof. unfold next_char. intros ->. reflexivity. Qed.
+
+(* successor One / Notone / Set with a disjoint test (tree.go:919-921, 946, 960-961) *)
+Lemma succ_char_fails k o c k' o' c' s f : is_rtl o' = is_rtl o -> tests_disjoint k c k' c' ->
+  next_in e k o c s -> sem e (S f) (NChar k' o' c') s = Ok [].
+Proof.
+  intros Hd Hdis [Ha Ht]. rewrite sem_S. cbn [sem_step].
+  rewrite (avail_same_dir o o'), (next_char_same_dir o o') by exact Hd.
+  rewrite (Hdis _ Ht), andb_false_r. reflexivity.
+Qed.
+
+(* successor Multi whose first character fails the loop's test (tree.go:925, 948, 964); left-to-right *)
+Lemma succ_multi_fails k o c o' c0 str s f : is_rtl o = false -> is_rtl o' = false ->
+  (forall ch, char_test e k c ch = true -> (c0 =? (if is_ci o' then lower e ch else ch)) = false) ->
+  next_in e k o c s -> sem e (S f) (NMulti o' (c0 :: str)) s = Ok [].
+Proof.
+  intros Ho Ho' Hdis [Ha Ht]. rewrite sem_S. cbn [sem_step]. unfold sem_multi. cbv zeta.
+  destruct (avail e o' (pos s) <? zlen (c0 :: str)); [reflexivity|].
+  rewrite Ho'. cbn [str_match_at]. unfold next_char in Ht. rewrite Ho in Ht.
+  rewrite (Hdis _ Ht). reflexivity.
+Qed.
+
+(* successor loop (any flavour) with min >= 1 and a disjoint test (tree.go:922-924, 947, 962-963) *)
+Lemma succ_charloop_fails k o c k' l' o' c' m' n' s f : is_rtl o' = is_rtl o -> tests_disjoint k c k' c' ->
+  1 <= m' -> next_in e k o c s -> sem e (S f) (NCharLoop k' l' o' c' m' n') s = Ok [].
+Proof.
+  intros Hd Hdis Hm [Ha Ht]. rewrite sem_S. cbn [sem_step]. rewrite sem_charloop_unfold. cbv zeta.
+  assert (Hr : loop_run e k' o' c' n' s = 0).
+  { unfold loop_run. cbv zeta. destruct (Z.to_nat _) as [|cap]; [reflexivity|]. cbn [run_len].
+    rewrite (next_char_same_dir o o') by exact Hd. rewrite (Hdis _ Ht), andb_false_r. reflexivity. }
+  rewrite Hr. assert (0 <? m' = true) as -> by lia. reflexivity.
+Qed.
+
+(* successor \z (tree.go:926, 949, 965); left-to-right *)
+Lemma succ_end_fails k o c s f : is_rtl o = false -> next_in e k o c s -> sem e (S f) (NAnchor AEnd) s = Ok [].
+Proof.
+  intros Ho [Ha _]. rewrite sem_S. cbn [sem_step anchor_ok]. unfold avail in Ha. rewrite Ho in Ha.
+  assert (tlen e <=? pos s = false) as -> by lia. reflexivity.
+Qed.
+
+(* successor $ when the loop's test rejects '\n' (tree.go:928, 967); left-to-right *)
+Lemma succ_eol_fails k o c s f : is_rtl o = false -> char_test e k c 10 = false ->
+  next_in e k o c s -> sem e (S f) (NAnchor AEol) s = Ok [].
+Proof.
+  intros Ho Hnl [Ha Ht]. rewrite sem_S. cbn [sem_step anchor_ok]. unfold avail in Ha. unfold next_char in Ht.
+  rewrite Ho in Ha, Ht. assert (tlen e <=? pos s = false) as -> by lia.
+  destruct (char_at e (pos s) =? 10) eqn:E; [|reflexivity].
+  assert (char_at e (pos s) = 10) as E' by lia. rewrite E' in Ht. congruence.
+Qed.
+
+(* successor \Z when the loop's test rejects '\n' (tree.go:927, 966); left-to-right *)
+Lemma succ_endz_fails k o c s f : is_rtl o = false -> char_test e k c 10 = false ->
+  next_in e k o c s -> sem e (S f) (NAnchor AEndZ) s = Ok [].
+Proof.
+  intros Ho Hnl [Ha Ht]. rewrite sem_S. cbn [sem_step anchor_ok]. unfold avail in Ha. unfold next_char in Ht.
+  rewrite Ho in Ha, Ht. cbv zeta.
+  destruct (1 <? tlen e - pos s) eqn:E1; [reflexivity|].
+  destruct (endz_strict e).
+  - assert (tlen e - pos s <=? 0 = false) as -> by lia. reflexivity.
+  - assert (tlen e - pos s =? 1 = true) as -> by lia.
+    destruct (char_at e (pos s) =? 10) eqn:E; [|reflexivity].
+    assert (char_at e (pos s) = 10) as E' by lia. rewrite E' in Ht. congruence.
+Qed.
+
+(* ---- the corollaries: one per case of canBeMadeAtomic ---- *)
+
+Ltac auto_atomic_by L :=
+  intros; apply auto_atomic_charloop_strong; intros f s j Hj;
+  eapply L; try eassumption; eapply early_next_in; eassumption.
+
+Theorem auto_atomic_then_char k o o1 c m n k' o' c' rest :
+  0 <= m -> is_rtl o' = is_rtl o1 -> tests_disjoint k c k' c' ->
+  rw_eqs e (NConcat o (NCharLoop k LGreedy o1 c m n :: NChar k' o' c' :: rest))
+           (NConcat o (NCharLoop k LAtomic o1 c m n :: NChar k' o' c' :: rest)).
+Proof. auto_atomic_by succ_char_fails. Qed.
+
+Theorem auto_atomic_then_multi k o o1 c m n o' c0 str rest :
+  0 <= m -> is_rtl o1 = false -> is_rtl o' = false ->
+  (forall ch, char_test e k c ch = true -> (c0 =? (if is_ci o' then lower e ch else ch)) = false) ->
+  rw_eqs e (NConcat o (NCharLoop k LGreedy o1 c m n :: NMulti o' (c0 :: str) :: rest))
+           (NConcat o (NCharLoop k LAtomic o1 c m n :: NMulti o' (c0 :: str) :: rest)).
+Proof.
+  intros Hm Ho Ho' Hd. apply auto_atomic_charloop_strong. intros f s j Hj.
+  apply (succ_multi_fails k o1 c); try assumption. eapply early_next_in; eassumption.
+Qed.
+
+Theorem auto_atomic_then_charloop k o o1 c m n k' l' o' c' m' n' rest :
+  0 <= m -> is_rtl o' = is_rtl o1 -> tests_disjoint k c k' c' -> 1 <= m' ->
+  rw_eqs e (NConcat o (NCharLoop k LGreedy o1 c m n :: NCharLoop k' l' o' c' m' n' :: rest))
+           (NConcat o (NCharLoop k LAtomic o1 c m n :: NCharLoop k' l' o' c' m' n' :: rest)).
+Proof. auto_atomic_by succ_charloop_fails. Qed.
+
+Theorem auto_atomic_then_end k o o1 c m n rest :
+  0 <= m -> is_rtl o1 = false ->
+  rw_eqs e (NConcat o (NCharLoop k LGreedy o1 c m n :: NAnchor AEnd :: rest))
+           (NConcat o (NCharLoop k LAtomic o1 c m n :: NAnchor AEnd :: rest)).
+Proof. auto_atomic_by succ_end_fails. Qed.
+
+Theorem auto_atomic_then_eol k o o1 c m n rest :
+  0 <= m -> is_rtl o1 = false -> char_test e k c 10 = false ->
+  rw_eqs e (NConcat o (NCharLoop k LGreedy o1 c m n :: NAnchor AEol :: rest))
+           (NConcat o (NCharLoop k LAtomic o1 c m n :: NAnchor AEol :: rest)).
+Proof. auto_atomic_by succ_eol_fails. Qed.
+
+Theorem auto_atomic_then_endz k o o1 c m n rest :
+  0 <= m -> is_rtl o1 = false -> char_test e k c 10 = false ->
+  rw_eqs e (NConcat o (NCharLoop k LGreedy o1 c m n :: NAnchor AEndZ :: rest))
+           (NConcat o (NCharLoop k LAtomic o1 c m n :: NAnchor AEndZ :: rest)).
+Proof. auto_atomic_by succ_endz_fails. Qed.
+
+End AutoAtomic.
